@@ -91,6 +91,10 @@ PROPS = {
                   "history H1 on App 1; then H1 on App 2 interleaved at random points with a different history H2 on App 3; predicate: transcripts of H1 on App 1 and App 2 identical; all three equal to the model"),
 }
 
+# what a reply is told about sub-messages handled by user-supplied modules (events incl. one typed `message`, data): route slice
+PROPS["C03"]["slices"].append({"name": "route", "quick": 2500, "thorough": 60000, "predicate": "pred_c17", "nontrivial": "nt_route"})
+PROPS["C03"]["rule"] += ("; slice route: Apps built with recording / accepting / refusing modules; op send-sub-reply makes a native or lifted "
+                         "contract dispatch one module message as a sub-message with reply_on always, whose reply records outcome, event types and data it was handed")
 PROPS["C19"]["slices"].append({"name": "staking-det", "quick": 1500, "thorough": 15000,
                                "predicate": "pred_c19_staking", "nontrivial": "nt_c19_staking"})
 PROPS["C19"]["rule"] += ("; slice staking-det: a staking history (several delegators per validator, slashes, unbondings, block advances) on App 1 "
